@@ -692,6 +692,135 @@ class Gen:
         self.meta["nontrivial"] = True
         return out
 
+    # ------------------------------------------------------------------ C19: Lua description vs API
+    LUA_NAMED = {"sph": "JointTypeSpherical", "ezyx": "JointTypeEulerZYX", "exyz": "JointTypeEulerXYZ", "eyxz": "JointTypeEulerYXZ",
+                 "txyz": "JointTypeTranslationXYZ", "float": "JointTypeFloatingBase"}
+    def case_C19(self, idx):
+        """one mechanism built through the API and loaded from a generated Lua description (in this order, in one
+        process, optionally after another description was loaded): dumps and every routine must agree"""
+        import os
+        r = self.r
+        R = lambda x: repr(float(x))
+        v3 = lambda v: "{%s}" % ", ".join(R(x) for x in v)
+        m3 = lambda M: "{%s}" % ", ".join(v3(row) for row in M)
+        n = r.randint(1, 6)
+        pool = ["axis_rot", "axis_tr", "axis_hel", "emu", "sph", "ezyx", "exyz", "eyxz", "txyz", "float", "fixed", "axis_rot"]
+        nodes = []
+        for k in range(n):
+            kind = r.choice(pool)
+            if k == 0 and kind == "fixed" and n == 1: kind = "axis_rot"
+            parent = -1 if k == 0 else (r.randrange(k) if r.random() < 0.85 else -1)
+            jt, ck = self.joint(kind)
+            nodes.append(dict(kind=kind, parent=parent, E=self.rot(), r=[self.dy(-1, 1) for _ in range(3)], body=self.body(), jt=jt, ck=ck, nm=2 + k))
+            self.count("joint_kinds", kind)
+        dangling = (r.random() < 0.15)          # one frame names a parent that this file does not define
+        dang_at = r.randrange(n) if dangling else -1
+        g = [self.dy(-10, 10) for _ in range(3)]
+        coords = []; sph = []
+        for nd in nodes:
+            for j, c in enumerate(nd["ck"]):
+                if c == "s" and (j == 0 or nd["ck"][j - 1] != "s"): sph.append(len(coords) + j)
+            coords += nd["ck"]
+        if not coords:
+            jt, ck = self.joint("axis_rot"); nodes.append(dict(kind="axis_rot", parent=-1, E=self.rot(), r=[Fr(0)] * 3, body=self.body(), jt=jt, ck=ck, nm=2 + n)); coords += ck; n += 1
+        # constraints: contacts and loops with explicit frames
+        cons = []
+        movable = [k for k, nd in enumerate(nodes)]
+        if r.random() < 0.6:
+            for _ in range(r.randint(1, 2)):
+                if r.random() < 0.6:
+                    k = r.choice(movable); Rn = self.rot(); nn = r.randint(1, 3)
+                    cons.append(dict(t="contact", body=k, pt=[self.dy(-1, 1) for _ in range(3)], normals=[Rn[j] for j in range(nn)]))
+                elif len(movable) >= 2:
+                    a, b = r.sample(movable, 2)
+                    ax = []
+                    for ai in sorted(r.sample(range(6), r.randint(1, 3))):
+                        v = [Fr(0)] * 6; v[ai] = Fr(1); ax.append(v)
+                    cons.append(dict(t="loop", a=a, b=b, Xp=(self.rot(), [self.dy(-0.5, 0.5) for _ in range(3)]), Xs=(self.rot(), [self.dy(-0.5, 0.5) for _ in range(3)]),
+                                     axes=ax, baum=r.random() < 0.3, ts=self.dy(0.05, 0.5)))
+        # Bind refuses sets with more rows than degrees of freedom
+        while cons and sum(len(c["normals"]) if c["t"] == "contact" else len(c["axes"]) for c in cons) > len(coords): cons.pop()
+        def add_lines(mode):
+            out = []
+            for k, nd in enumerate(nodes):
+                pref = "base" if nd["parent"] < 0 else str(nd["parent"])
+                if k == dang_at: pref = "dangling" if mode == "lua" else "base"
+                out.append(self._fmt_add(pref, nd["nm"], nd["E"], nd["r"], nd["body"], nd["jt"]))
+            for c in cons:
+                f = lambda v: " ".join(fl(x) for x in v)
+                if c["t"] == "contact":
+                    for nv in c["normals"]: out.append("contact %d %s %s" % (c["body"], f(c["pt"]), f(nv)))
+                else:
+                    out.append("loop %d %d %s %s %s %s %d %s %d %s" % (c["a"], c["b"], f([x for row in c["Xp"][0] for x in row]), f(c["Xp"][1]),
+                               f([x for row in c["Xs"][0] for x in row]), f(c["Xs"][1]), len(c["axes"]), " ".join(f(a) for a in c["axes"]), 1 if c["baum"] else 0, fl(c["ts"])))
+            return out
+        # ---- the Lua text
+        def joint_lua(nd):
+            kind = nd["kind"]
+            if kind == "fixed": return "{}"
+            if kind in self.LUA_NAMED: return '{"%s"}' % self.LUA_NAMED[kind]
+            t = nd["jt"].split()
+            if t[0] == "axis": return "{{%s}}" % ", ".join(t[1:7])
+            k = int(t[1]); vals = t[2:]
+            return "{%s}" % ", ".join("{%s}" % ", ".join(vals[6 * i:6 * i + 6]) for i in range(k))
+        def name(k): return "n%d" % nodes[k]["nm"]
+        L = ["return {", "  gravity = %s," % v3(g), "  frames = {"]
+        for k, nd in enumerate(nodes):
+            par = "ROOT" if nd["parent"] < 0 else name(nd["parent"])
+            if k == dang_at: par = "undefined_frame_%d" % r.randint(0, 3)
+            b = nd["body"]
+            L.append('    { name = "%s", parent = "%s", joint_frame = { r = %s, E = %s }, body = { mass = %s, com = %s, inertia = %s }, joint = %s },'
+                     % (name(k), par, v3(nd["r"]), m3(nd["E"]), R(b["m"]), v3(b["c"]), m3(b["I"]), joint_lua(nd)))
+        L.append("  },")
+        if cons:
+            L.append("  constraint_sets = { cs = {")
+            for c in cons:
+                if c["t"] == "contact":
+                    L.append('    { constraint_type = "contact", name = "c", body = "%s", point = %s, normal_sets = {%s} },'
+                             % (name(c["body"]), v3(c["pt"]), ", ".join(v3(nv) for nv in c["normals"])))
+                else:
+                    L.append('    { constraint_type = "loop", name = "l", predecessor_body = "%s", successor_body = "%s", predecessor_transform = { r = %s, E = %s }, successor_transform = { r = %s, E = %s }, axis_sets = {%s}, enable_stabilization = %s, stabilization_parameter = %s },'
+                             % (name(c["a"]), name(c["b"]), v3(c["Xp"][1]), m3(c["Xp"][0]), v3(c["Xs"][1]), m3(c["Xs"][0]),
+                                ", ".join("{%s}" % ", ".join(R(x) for x in a) for a in c["axes"]), "true" if c["baum"] else "false", R(c["ts"])))
+            L.append("  } },")
+        L.append("}")
+        d = os.path.join("/verif/work", "lua"); os.makedirs(d, exist_ok=True)
+        tag = "%s_%d_%d_%d" % (self.profile, os.getpid(), id(self) % 100000, idx)
+        path = os.path.join(d, tag + ".lua")
+        open(path, "w").write("\n".join(L) + "\n")
+        decoy = None
+        if r.random() < 0.5:
+            # another description, loaded first: defines the names this one might leave dangling and re-uses its body names
+            DL = ["return {", "  frames = {"]
+            for k in range(r.randint(1, 4)):
+                DL.append('    { name = "%s", parent = "ROOT", joint = {{0., 0., 1., 0., 0., 0.}}, body = { mass = 1.5, com = {0.1, 0., 0.}, inertia = {{1.,0.,0.},{0.,1.,0.},{0.,0.,1.}} } },'
+                          % (r.choice(["undefined_frame_%d" % k, "n%d" % (2 + k), "extra%d" % k])))
+            DL += ["  },", "}"]
+            decoy = os.path.join(d, tag + "_decoy.lua"); open(decoy, "w").write("\n".join(DL) + "\n")
+        # ---- the case
+        grav = "gravity " + " ".join(fl(x) for x in g)
+        calls = ["dump"]
+        ops = [dict(kind=nd["kind"], parent=("base" if nd["parent"] < 0 else str(nd["parent"])), dof=len(nd["ck"]), massless=False, fixed=(nd["kind"] == "fixed"), q=0) for nd in nodes]
+        for _ in range(4):
+            rt = r.choice(["id", "fd", "crba", "b2b", "pvel6", "com", "jac6", "nle"]); self.count("calls", rt)
+            dd = self.make_call(rt, ops, coords, sph); dd["F"] = "F 0"
+            calls.append(self.render(dd))
+        if cons:
+            q, qd, _, tau = self.state(coords, sph)
+            calls.append("cjac 1 " + self.vec(q)); calls.append("cerr 1 " + self.vec(q))
+            calls.append("csys %s %s %s F 0" % (self.vec(q), self.vec(qd), self.vec(tau)))
+        out = ["case x", grav] + add_lines("api")
+        base = len(out) - 1
+        out += calls + ["newmodel"]
+        if decoy: out.append("luadecoy " + decoy)
+        out += ["luamode", "luaload %s%s" % (path, " withcons" if cons else ""), grav] + add_lines("lua")
+        baseB = len(out) - 1
+        out += calls
+        for i in range(len(calls)): self.meta["same"].append((base + i, baseB + i, "*"))
+        self.meta["nontrivial"] = True
+        self.meta.setdefault("files", []).extend([path] + ([decoy] if decoy else []))
+        return out
+
     def case_C14(self, idx):
         """construction sequences with a rejected call injected; dump before and after every add"""
         r = self.r
